@@ -22,6 +22,8 @@ func c19(c *Ctx) {
 	c19R3(c)
 	c19R4(c)
 	c19R5(c)
+	c19R6(c)
+	c19R7(c)
 }
 
 // R1 slot conservation in the node reconciler.
@@ -525,4 +527,248 @@ func c19R5(c *Ctx) {
 		want := strings.ReplaceAll(spec.want, "l.", recv+".")
 		c.Check(got == want, "C19.R5", spec.fn+" formula", p.Pos(fn.Decl), fn.Key(), want, got)
 	}
+}
+
+// R6: a cached description of the instance type (node annotation) is believed
+// only for the type the machine reports itself: the InstanceTypeID of the
+// cached limits is compared with the metadata service's instance type, not with
+// anything else stored on the Node object (labels and annotations go stale
+// together when an instance is resized in place).
+func c19R6(c *Ctx) {
+	p := c.P
+	c.Rule("C19.R6", "initInstanceLimit validates cached limits against the machine itself: every comparison of a limit's InstanceTypeID in the daemon has the metadata service's GetInstanceType() on the other side")
+	fn := p.Func(daemonPkg, "NetworkServiceBuilder.initInstanceLimit")
+	if fn == nil {
+		c.Unres("C19.R6", "NetworkServiceBuilder.initInstanceLimit", "not found")
+		return
+	}
+	n := 0
+	for _, f := range p.FuncsInPkg(daemonPkg) {
+		if f.Decl.Body == nil {
+			continue
+		}
+		info := f.Info()
+		ast.Inspect(f.Decl.Body, func(nd ast.Node) bool {
+			be, ok := nd.(*ast.BinaryExpr)
+			if !ok || (be.Op != token.EQL && be.Op != token.NEQ) {
+				return true
+			}
+			for i, side := range []ast.Expr{be.X, be.Y} {
+				sel, ok := ast.Unparen(side).(*ast.SelectorExpr)
+				if !ok {
+					continue
+				}
+				fv, _ := info.ObjectOf(sel.Sel).(*types.Var)
+				if fv == nil || !fv.IsField() || fv.Name() != "InstanceTypeID" {
+					continue
+				}
+				other := []ast.Expr{be.Y, be.X}[i]
+				src := ast.Unparen(derefLoose(f, other))
+				if o := identObj(info, src); o != nil {
+					// v, err := call(): the value is result 0 of the call
+					for _, d := range varDefs(f, o) {
+						if as, ok := d.node.(*ast.AssignStmt); ok && len(as.Rhs) == 1 && len(as.Lhs) > 1 && identObj(info, as.Lhs[0]) == o {
+							src = ast.Unparen(as.Rhs[0])
+						}
+					}
+				}
+				okSrc := false
+				if call, isCall := src.(*ast.CallExpr); isCall {
+					if cal := Callee(info, call); cal != nil && cal.Name() == "GetInstanceType" && cal.Pkg() != nil && strings.HasSuffix(cal.Pkg().Path(), "pkg/aliyun/instance") {
+						okSrc = true
+					}
+				}
+				n++
+				c.Check(okSrc, "C19.R6", f.Name+": cached limits are compared with the metadata instance type", p.Pos(be), f.Key(), "limit.InstanceTypeID is compared with instance.GetInstanceMeta().GetInstanceType()", "compared with "+exprString(src))
+			}
+			return true
+		})
+	}
+	c.Floor("C19.R6", "comparisons of a cached InstanceTypeID in the daemon", 1, n)
+}
+
+// R7: the capacity annotations are published unless ALL of them are already on
+// the node with the wanted value. PatchNodeAnnotations may skip the API call
+// only after the loop over the wanted annotations completed without finding a
+// difference: no success return inside the loop, the skip after the loop hangs
+// on a flag that starts "nothing to do" and is flipped whenever an entry is
+// absent or different.
+func c19R7(c *Ctx) {
+	p := c.P
+	c.Rule("C19.R7", "k8s.PatchNodeAnnotations skips the patch only when every wanted annotation is present with the wanted value: no success return inside the loop over the wanted map; the skip after the loop tests a flag that is flipped for every absent or different entry")
+	fn := p.Func("pkg/k8s", "k8s.PatchNodeAnnotations")
+	if fn == nil {
+		c.Unres("C19.R7", "k8s.PatchNodeAnnotations", "not found")
+		return
+	}
+	info := fn.Info()
+	sig := fn.Obj.Type().(*types.Signature)
+	want := info.Defs[fn.Decl.Type.Params.List[0].Names[0]]
+	var loop *ast.RangeStmt
+	ast.Inspect(fn.Decl.Body, func(nd ast.Node) bool {
+		if rs, ok := nd.(*ast.RangeStmt); ok && identObj(info, rs.X) == want && loop == nil {
+			loop = rs
+		}
+		return true
+	})
+	var patch *ast.CallExpr
+	for _, cs := range p.CallsIn(fn) {
+		if cs.Callee != nil && cs.Callee.Name() == "Patch" {
+			patch = cs.Call
+		}
+	}
+	if patch == nil {
+		c.Undec("C19.R7", "PatchNodeAnnotations: the patch call", p.Pos(fn.Decl), fn.Key(), "a Patch call", "not found")
+		return
+	}
+	if loop == nil {
+		// no comparison loop: every call patches — nothing can be skipped wrongly, if no success return precedes the patch
+		for _, r := range declReturns(fn.Decl.Body) {
+			if ok, known := isSuccessReturn(info, sig, r); ok && known && r.Pos() < patch.Pos() {
+				c.Bad("C19.R7", "PatchNodeAnnotations: skip without comparing", p.Pos(r), fn.Key(), "a skip follows a comparison of every wanted annotation", "success return before the patch and no loop over the wanted annotations")
+			}
+		}
+		c.OK("C19.R7", "PatchNodeAnnotations always patches", p.Pos(patch), fn.Key(), "no skip")
+		return
+	}
+	// 1. nothing succeeds from inside the loop
+	inLoop := 0
+	for _, r := range declReturns(fn.Decl.Body) {
+		if r.Pos() > loop.Body.Pos() && r.End() < loop.Body.End() {
+			if ok, known := isSuccessReturn(info, sig, r); (ok && known) || !known {
+				inLoop++
+				c.Bad("C19.R7", "PatchNodeAnnotations: no skip before every entry was compared", p.Pos(r), fn.Key(), "no success return inside the loop over the wanted annotations", "returns from inside the loop: one matching entry skips the patch of all others")
+			}
+		}
+	}
+	if inLoop == 0 {
+		c.OK("C19.R7", "PatchNodeAnnotations: no skip before every entry was compared", p.Pos(loop), fn.Key(), "no success return inside the loop")
+	}
+	// 2. the skips after the loop and before the patch
+	nskip := 0
+	for _, r := range declReturns(fn.Decl.Body) {
+		if r.Pos() < loop.End() || r.Pos() > patch.Pos() {
+			continue
+		}
+		if ok, known := isSuccessReturn(info, sig, r); !ok || !known {
+			continue
+		}
+		nskip++
+		var guard *ast.IfStmt
+		for _, x := range pathTo(fn.Decl.Body, r) {
+			if is, ok := x.(*ast.IfStmt); ok && is.Body.Pos() <= r.Pos() && r.End() <= is.Body.End() {
+				guard = is
+			}
+		}
+		if guard == nil {
+			c.Bad("C19.R7", "PatchNodeAnnotations: the skip is conditional", p.Pos(r), fn.Key(), "if <all present> { return nil }", "unconditional success return before the patch")
+			continue
+		}
+		cond := ast.Unparen(guard.Cond)
+		skipWhen := true
+		if u, ok := cond.(*ast.UnaryExpr); ok && u.Op == token.NOT {
+			cond, skipWhen = ast.Unparen(u.X), false
+		}
+		flag := identObj(info, cond)
+		if flag == nil {
+			c.Undec("C19.R7", "PatchNodeAnnotations: the skip tests a flag", p.Pos(guard.Cond), fn.Key(), "a boolean flag maintained by the loop", exprString(guard.Cond))
+			continue
+		}
+		okShape, why := true, ""
+		var flips []ast.Node
+		for _, d := range varDefs(fn, flag) {
+			if d.rhs == nil {
+				if _, isDecl := d.node.(*ast.ValueSpec); isDecl && !skipWhen {
+					continue // var need bool (false)
+				}
+				okShape, why = false, "assigned from a multi-value expression"
+				continue
+			}
+			tv := info.Types[ast.Unparen(d.rhs)]
+			if tv.Value == nil {
+				okShape, why = false, "assigned "+exprString(d.rhs)
+				continue
+			}
+			val := tv.Value.String() == "true"
+			inside := d.node.Pos() > loop.Body.Pos() && d.node.End() < loop.Body.End()
+			switch {
+			case !inside && val == skipWhen:
+			case inside && val != skipWhen:
+				flips = append(flips, d.node)
+			default:
+				okShape, why = false, fmt.Sprintf("assigned %v at %s", val, p.Pos(d.node))
+			}
+		}
+		c.Check(okShape && len(flips) > 0, "C19.R7", "PatchNodeAnnotations: the skip flag starts 'nothing to do' and is only ever flipped inside the loop", p.Pos(guard.Cond), fn.Key(),
+			"flag := "+fmt.Sprint(skipWhen)+" before the loop; flag = "+fmt.Sprint(!skipWhen)+" inside it", why)
+		// 3. every absent or different entry flips it
+		key, val := "", ""
+		if id, ok := loop.Key.(*ast.Ident); ok {
+			key = id.Name
+		}
+		if id, ok := loop.Value.(*ast.Ident); ok {
+			val = id.Name
+		}
+		if okShape && len(flips) > 0 && key != "" && val != "" {
+			// the node-side lookup: X[key]
+			var lookup *ast.IndexExpr
+			var okName, vName string
+			ast.Inspect(loop.Body, func(k ast.Node) bool {
+				if ix, ok := k.(*ast.IndexExpr); ok && exprString(ix.Index) == key && lookup == nil {
+					lookup = ix
+				}
+				if as, ok := k.(*ast.AssignStmt); ok && len(as.Lhs) == 2 && len(as.Rhs) == 1 {
+					if ix, ok := ast.Unparen(as.Rhs[0]).(*ast.IndexExpr); ok && exprString(ix.Index) == key {
+						vName, okName = exprString(as.Lhs[0]), exprString(as.Lhs[1])
+					}
+				}
+				return true
+			})
+			req := ""
+			switch {
+			case okName != "" && okName != "_" && vName != "_":
+				req = "!" + okName + " || " + vName + " != " + val
+			case lookup != nil:
+				req = exprString(lookup) + " != " + val
+			}
+			if req == "" {
+				c.Undec("C19.R7", "PatchNodeAnnotations: a different entry flips the flag", p.Pos(loop), fn.Key(), "node value compared with the wanted value", "lookup of the node's annotation not recognised")
+			} else {
+				// an iteration that completes either saw an equal entry or flipped the flag …
+				eq := strings.NewReplacer(" != ", " == ").Replace(req)
+				if okName != "" && okName != "_" && vName != "_" {
+					eq = okName + " && " + vName + " == " + val
+				}
+				flagNow := "!" + flag.Name()
+				if !skipWhen {
+					flagNow = flag.Name()
+				}
+				c.RequireAtEnd("C19.R7", "PatchNodeAnnotations: an iteration that completes saw an equal entry or flipped the flag", fn, loop.Body, "("+eq+") || "+flagNow, nil)
+				// … and one that is cut short (break) flipped it just before
+				ast.Inspect(loop.Body, func(k ast.Node) bool {
+					blk, ok := k.(*ast.BlockStmt)
+					if !ok {
+						return true
+					}
+					for i, st := range blk.List {
+						br, ok := st.(*ast.BranchStmt)
+						if !ok || br.Tok != token.BREAK {
+							continue
+						}
+						after := false
+						if i > 0 {
+							for _, fl := range flips {
+								if ast.Node(blk.List[i-1]) == fl {
+									after = true
+								}
+							}
+						}
+						c.Check(after, "C19.R7", "PatchNodeAnnotations: the loop is cut short only after flipping the flag", p.Pos(br), fn.Key(), "flag flipped; break", "break without a flip directly before it")
+					}
+					return true
+				})
+			}
+		}
+	}
+	c.Floor("C19.R7", "skips of the patch", 1, nskip+inLoop)
 }
